@@ -338,3 +338,154 @@ func vectorValidationLeaf(c *engine.Chooser) {
 	}
 	c.Outcome("validation", desc)
 }
+
+// ---------------------------------------------------------------------------------------------
+// History of one PowerBasis: two successive EvaluateFromPowerBasis calls of different shapes (degree, Lazy flag) on the SAME
+// basis, every ordered pair; each call is judged like the same call on a fresh basis (not refused, level, scale, value).
+
+type pbPoly struct {
+	deg  int
+	lazy bool
+}
+
+var pbPolys = []pbPoly{{7, true}, {15, true}, {31, true}, {5, false}, {9, false}, {31, false}}
+
+func (q pbPoly) String() string { return fmt.Sprintf("d%d/lazy=%v", q.deg, q.lazy) }
+
+func pbHistoryScenarios(tier string) []engine.Scenario {
+	var scs []engine.Scenario
+	for _, bc := range basisCases[:2] {
+		bc := bc
+		name := "power-basis-history/ckks-" + bc.name
+		scs = append(scs, engine.Scenario{Name: name, Bound: -1, Fn: func(c *engine.Chooser) { pbHistoryCKKS(c, name, bc) }})
+	}
+	scs = append(scs, engine.Scenario{Name: "power-basis-history/bgv-std", Bound: -1, Fn: func(c *engine.Chooser) { pbHistoryBGV(c, "power-basis-history/bgv-std") }})
+	return scs
+}
+
+func pbClass(seq []pbPoly, step int) string {
+	if !seq[step].lazy {
+		for _, q := range seq[:step] {
+			if q.lazy {
+				return "non-lazy-after-lazy"
+			}
+		}
+	}
+	return "other"
+}
+
+func pbHistoryCKKS(c *engine.Chooser, scName string, bc basisCase) {
+	w := getCKKSWorld(c, ckksA)
+	i, j := c.ChooseFree(len(pbPolys), "first"), c.ChooseFree(len(pbPolys), "second")
+	if i == j {
+		c.Skip("same shape twice")
+		return
+	}
+	seq := []pbPoly{pbPolys[i], pbPolys[j]}
+	desc := fmt.Sprintf("ckks/%s one PowerBasis: %v then %v", bc.name, seq[0], seq[1])
+	c.Note("%s", desc)
+	c.Cover("power-basis-history", "ckks-"+bc.name)
+	uni.Seed(c, scName, desc)
+	x := ckksInput(bc, w.slots)
+	level := w.Params.MaxLevel()
+	delta := circ.ScaleF(w.Params.DefaultScale())
+	ct := w.ciphertext(c, bc.name, x, level, w.Params.DefaultScale()) // [-1,1] / monomial: no change of basis needed
+	ev := w.tmpl.ShallowCopy()
+	pe := ckkspoly.NewEvaluator(w.Params, ev)
+	pb := polynomial.NewPowerBasis(ct, bc.basis) // ONE basis for the whole sequence
+	for step, q := range seq {
+		cs := make([]complex128, q.deg+1)
+		S := 0.0
+		for k := range cs {
+			cs[k] = ckksCoeff(bc, 3*step, k)
+			S += cmplx.Abs(cs[k])
+		}
+		var bp bignum.Polynomial
+		if bc.basis == bignum.Chebyshev {
+			bp = bignum.NewPolynomial(bignum.Chebyshev, cs, [2]float64{bc.a, bc.b})
+		} else {
+			bp = bignum.NewPolynomial(bignum.Monomial, cs, nil)
+		}
+		pol := ckkspoly.NewPolynomial(bp)
+		pol.Lazy = q.lazy
+		sig := "C13/power-basis-history/" + pbClass(seq, step)
+		var out *rlwe.Ciphertext
+		var err error
+		if _, pan := uni.Try(func() error { out, err = pe.EvaluateFromPowerBasis(pb, pol, w.Params.DefaultScale()); return nil }); pan != nil {
+			c.Fail(sig+"/panic", "%s, call %d: panic: %v", desc, step, pan)
+			return
+		}
+		if err != nil {
+			c.Fail(sig+"/refused", "%s, call %d (%v) is refused although the same call on a fresh basis is not: %v", desc, step, q, err)
+			return
+		}
+		if out.Level() != level-bitsLen(q.deg) {
+			c.Fail(sig+"/levels-consumed", "%s, call %d: output level %d, expected %d", desc, step, out.Level(), level-bitsLen(q.deg))
+		}
+		if !circ.ScaleClose(out.Scale, circ.BigScale(w.Params.DefaultScale())) {
+			c.Fail(sig+"/output-scale", "%s, call %d: output scale %v", desc, step, &out.Scale.Value)
+		}
+		eps := polyEps(w.Params.Parameters, bc.basis == bignum.Chebyshev, q.deg, S, delta, delta)
+		got := w.Decode(out, w.Params.LogMaxSlots(), w.Params.DefaultScale())
+		for s := range got {
+			if d := cmplx.Abs(got[s] - refEval(bc, cs, x[s])); d > eps {
+				c.Fail(sig+"/value", "%s, call %d: slot %d |diff|=%.3g > eps=%.3g", desc, step, s, d, eps)
+				break
+			}
+		}
+		c.Count(1)
+	}
+	c.Outcome("pb-history", desc)
+}
+
+func pbHistoryBGV(c *engine.Chooser, scName string) {
+	w := getBGVWorld(c, bgvSmall)
+	t := w.T
+	polys := pbPolys[:2] // degrees within the level budget of the small world, plus the non-lazy ones
+	polys = append(append([]pbPoly(nil), polys...), pbPolys[3:]...)
+	i, j := c.ChooseFree(len(polys), "first"), c.ChooseFree(len(polys), "second")
+	if i == j {
+		c.Skip("same shape twice")
+		return
+	}
+	seq := []pbPoly{polys[i], polys[j]}
+	desc := fmt.Sprintf("bgv/standard one PowerBasis: %v then %v", seq[0], seq[1])
+	c.Note("%s", desc)
+	c.Cover("power-basis-history", "bgv-standard")
+	uni.Seed(c, scName, desc)
+	x := w.input()
+	level := w.Params.MaxLevel()
+	ct := w.ciphertext(c, level, 1)
+	ev := w.tmpl[0].ShallowCopy()
+	pe := bgvpoly.NewEvaluator(w.Params, ev)
+	pb := polynomial.NewPowerBasis(ct, bignum.Monomial)
+	for step, q := range seq {
+		sh := mkShape("dense", q.deg, uint64(1)<<(q.deg+1)-1)
+		cs := bgvCoeffs(t, sh, 3*step)
+		pol := bgvpoly.NewPolynomial(cs)
+		pol.Lazy = q.lazy
+		sig := "C13/power-basis-history/" + pbClass(seq, step)
+		var out *rlwe.Ciphertext
+		var err error
+		if _, pan := uni.Try(func() error { out, err = pe.EvaluateFromPowerBasis(pb, pol, rlwe.NewScaleModT(1, t)); return nil }); pan != nil {
+			c.Fail(sig+"/panic", "%s, call %d: panic: %v", desc, step, pan)
+			return
+		}
+		if err != nil {
+			c.Fail(sig+"/refused", "%s, call %d (%v) is refused although the same call on a fresh basis is not: %v", desc, step, q, err)
+			return
+		}
+		if out.Level() != level-bitsLen(q.deg) {
+			c.Fail(sig+"/levels-consumed", "%s, call %d: output level %d, expected %d", desc, step, out.Level(), level-bitsLen(q.deg))
+		}
+		got := w.Decode(out, 1)
+		for s := range got {
+			if want := hornerMod(cs, x[s], t); got[s] != want {
+				c.Fail(sig+"/value", "%s, call %d: slot %d got %d want %d", desc, step, s, got[s], want)
+				break
+			}
+		}
+		c.Count(1)
+	}
+	c.Outcome("pb-history", desc)
+}
